@@ -195,6 +195,18 @@ class Session(object):
             if getattr(cl.udp.conn.status, "value", 0) == 4 and addr not in w.ctxt.temp_connections:
                 self.c.inc("retries_on_same_client_object")
             cl.hello_seen = None
+        if attack.get("second_session_same_client"):
+            # a complete first session on this UdpClient (the application reads its token), a graceful disconnect, then the
+            # session under test on the SAME object: what the client reports is what THIS handshake agreed on
+            cl.connect()
+            w.run_until(lambda _w: getattr(cl.udp.conn.status, "value", 0) == 2 and addr in w.ctxt.connections, 60)
+            first_token = cl.udp.token() if getattr(cl.udp.conn.status, "value", 0) == 2 else None
+            cl.udp.disconnect()
+            w.run_until(lambda _w: addr not in w.ctxt.connections, 120)
+            if first_token is not None and addr not in w.ctxt.connections:
+                self.c.inc("second_sessions_on_same_client_object")
+            cl.hello_seen = None
+        cb0 = len(cl.connect_cb)
         cl.connect()
         before_events = self.c.get("server_connect_events", 0)
         w.step(attack.get("ticks", 8))
@@ -222,8 +234,8 @@ class Session(object):
                 if conn.session_key_bytes != sconn.session_key_bytes or len(conn.session_key_bytes) != 16:
                     self.viol("keys-differ", "after an honest handshake the two ends hold different keys")
                 if conn.token != sconn.token or cl.udp.token() != sconn.token:
-                    self.viol("tokens-differ", "after an honest handshake tokens differ: %r vs %r" % (conn.token, sconn.token))
-                n_true = sum(1 for t, ok in cl.connect_cb if ok)
+                    self.viol("tokens-differ", "after an honest handshake tokens differ: client connection %r, server %r, UdpClient.token() %r" % (conn.token, sconn.token, cl.udp.token()))
+                n_true = sum(1 for t, ok in cl.connect_cb[cb0:] if ok)
                 if n_true != 1 or getattr(conn.status, "value", 0) != 2:
                     self.viol("handshake-rerun-on-connected-client", "after an honest handshake (and %s) the client's connect callback reported success %d times, status %s" % (
                         "datagrams injected later" if attack.get("then") else "nothing else", n_true, conn.status))
@@ -440,6 +452,36 @@ def run_shard(cfg):
                 return None
             return body_of_datagram(build_server_hello(C, base, eph=atk_eph.getPublicKey().getBytes(), signer=atk_root))
         S.handshake({"name": "post-handshake:rewrapped-hello-signed-by-attacker", "honest": True, "then": [rewrap(attacker_body)], "ticks": 10})
+        # --- a second session on the same UdpClient
+        for i in range(3):
+            S.handshake({"name": "second-session-same-client:honest", "honest": True, "second_session_same_client": True, "ticks": 10, "variant": i})
+        # --- a hello the server does not answer (unsupported version / damaged CRC) leaves whatever it leaves behind; a cleartext
+        #     CHALLENGE_RESP from that address - token 0, or a guess - must not be promoted
+        def unanswered_hello_then_plain_challenge(variant, token):
+            S.n += 1
+            S.case = "challenge:plaintext-after-unanswered-hello"
+            addr = ("10.5.%d.%d" % ((S.n >> 8) & 255, S.n & 255), 22000 + (S.n % 30000))
+            m = C.HandshakeClientHelloMessage()
+            m.client_pubkey = EllipticCurvePrivateKey.new().getPublicKey()
+            m.client_version = {"version-2": 2, "version-0": 0, "version-big": 2 ** 31}.get(variant, 1)
+            d1 = A.forge_crc("c2s", 1, 1, 0, 0, [(1, 1, m.dumpb())], now())
+            if variant == "bad-crc":
+                d1 = d1[:-1] + bytes([d1[-1] ^ 0x55])
+            ch = C.HandshakeClientChallengeResponseMessage()
+            ch.token = token
+            d2 = A.forge_crc("c2s", 3, 2, 1, 0, [(2, 3, ch.dumpb())], now())
+            S.w.net.inject("c2s", addr, d1, "forged:unanswerable-hello")
+            if variant != "bad-crc":
+                S.w.step(2)
+            S.w.net.inject("c2s", addr, d2, "forged:plaintext-challenge")
+            S.w.step(5)
+            out["counters"].inc("plaintext_challenges_after_unanswered_hello")
+            if addr in S.w.ctxt.connections:
+                S.viol("promoted-without-proof-of-key", "the server promoted %s after a hello it did not answer (%s) and a CLEARTEXT challenge response with token %d" % (addr, variant, token))
+            out["distinct"].add(h64("unanswered-hello", variant, token))
+        for variant in ("version-2", "version-0", "version-big", "bad-crc"):
+            for token in (0, 1, 0x40000000):
+                unanswered_hello_then_plain_challenge(variant, token)
         # --- the application retries connect() on the SAME UdpClient after an unanswered attempt: the pin still holds
         S.handshake({"name": "retry-same-client:honest", "honest": True, "retry_same_client": True, "ticks": 10})
         for nm, b_ in (("resigned-by-attacker-root", lambda b, cl: build_server_hello(C, b, eph=atk_eph.getPublicKey().getBytes(), signer=atk_root)),
@@ -575,7 +617,7 @@ def finish(tier, seed, results):
     m = merge(results)
     inconclusive = []
     need(m["counters"], ["honest_handshakes", "root_key_signatures", "client_key_derivations", "client_params_in_signed_set",
-                         "signature_verified_independently", "promotions_with_proof", "post_handshake_rewrapped_hellos", "retries_on_same_client_object", "client_left_unconnected",
+                         "signature_verified_independently", "promotions_with_proof", "post_handshake_rewrapped_hellos", "retries_on_same_client_object", "second_sessions_on_same_client_object", "plaintext_challenges_after_unanswered_hello", "client_left_unconnected",
                          "mutations_type1", "mutations_type2", "mutations_type3", "server_connect_events", "concurrent_pending_pairs"], inconclusive)
     cov = {
         "evaluations": m["evaluations"],
